@@ -12,3 +12,4 @@ pub mod canon;
 pub mod frontfault;
 pub mod der;
 pub mod names;
+pub mod uptrace;
